@@ -7,6 +7,8 @@ from .c11 import DOMAIN
 
 
 def run(chk):
+    from .common import per_instance_state_of_modules
+    per_instance_state_of_modules(chk, "C07.classes.state_is_per_instance", ['concurrency.executor', 'concurrency.models', 'state'])   # no object created in a class body: instances share no mutable state through the class
     chk.assume("A: wake-up timestamps are finite reals; float('inf') is a constant above all of them")
     chk.assume("NOT DECIDED (liveness, DESIGN 5): 'always woken again', 'reaches SUCCEEDED/FAILED after finitely many invocations', 'no invocation runs forever', and the real-time clause about a branch still running when the last sibling parked. "
                "Decided safety causes of these clauses: retries are bounded (attempt count), every blocked synchronous caller is woken on failure, no lost wake-up in create_checkpoint (C06), the completion event is set whenever the batch is decided or every branch is parked, "
